@@ -87,26 +87,45 @@ class SymInt:
         return self._cmp(other, lambda a, b: a >= b)
 
     # arithmetic
-    def _arith(self, other, op):
+    def _arith(self, other, op, kind=None):
         o = _term(other)
         if o is None:
             return NotImplemented
         r = simp_int(op(self.t, o))
-        return r if isinstance(r, int) else SymInt(r)
+        if isinstance(r, int):
+            return r
+        # interval of the result, so that it can still be concretised later
+        dom = None
+        od = (other, other) if isinstance(other, int) else getattr(other, "dom", None)
+        if self.dom is not None and od is not None and kind is not None:
+            a, b = self.dom
+            c, d = od
+            if kind == "+":
+                dom = (a + c, b + d)
+            elif kind == "-":
+                dom = (a - d, b - c)
+            elif kind == "r-":
+                dom = (c - b, d - a)
+            else:
+                ps = [a * c, a * d, b * c, b * d]
+                dom = (min(ps), max(ps))
+            if dom[1] - dom[0] > 64:
+                dom = None
+        return SymInt(r, dom)
 
     def __add__(self, o):
-        return self._arith(o, lambda a, b: a + b)
+        return self._arith(o, lambda a, b: a + b, "+")
 
     __radd__ = __add__
 
     def __sub__(self, o):
-        return self._arith(o, lambda a, b: a - b)
+        return self._arith(o, lambda a, b: a - b, "-")
 
     def __rsub__(self, o):
-        return self._arith(o, lambda a, b: b - a)
+        return self._arith(o, lambda a, b: b - a, "r-")
 
     def __mul__(self, o):
-        return self._arith(o, lambda a, b: a * b)
+        return self._arith(o, lambda a, b: a * b, "*")
 
     __rmul__ = __mul__
 
